@@ -122,6 +122,29 @@ impl Check for C01 {
         out
     }
 
+    fn stress(tier: Tier) -> Vec<Case> {
+        // a boundary of ~2n wires whose identifications form one long chain: everything collapses
+        let n = if tier == Tier::Thorough { 400_000 } else { 150_000 };
+        let chain = |rev: bool| {
+            let mut t = vec![0];
+            for i in 1..n - 1 {
+                t.push(i);
+                t.push(i);
+            }
+            t.push(n - 1);
+            let mut s = vec![];
+            for j in 0..n - 1 {
+                s.push(j);
+                s.push(j);
+            }
+            if rev {
+                t.reverse();
+                s.reverse();
+            }
+            Case { f: Plain { w: vec![0; n], e: vec![], s: vec![0], t }, g: Plain { w: vec![0; n], e: vec![], s, t: vec![n - 1] }, schedules: 1, sugar: false }
+        };
+        vec![chain(false), chain(true)]
+    }
     fn rule() -> &'static str {
         "Each run draws generator parameters (swarm), then a pair (f, g) of well-formed diagrams whose boundary types match (5/6) or were made to differ in one label / in length / by emptying one side (1/6). The pair is composed on the simulated device with all decisions VecLike (control), on VecKind, and under 1-4 perturbed device schedules. A run is non-trivial iff the types match, the pair is not two empty diagrams and there is at least one identification or hyperedge; distinct = distinct (fingerprint of (f,g), fingerprint of all device decisions taken) pairs, counted in a hash set."
     }
